@@ -241,18 +241,37 @@ def _cases(draw):
     ops = [["extend", 0]]
     n = draw(st.integers(3, 10))
     for _ in range(n):
-        k = draw(st.sampled_from(["add", "add", "add", "query", "query", "query", "extend"]))
+        k = draw(st.sampled_from(["add", "add", "add", "add", "query", "query", "extend"]))
         if k == "extend":
             ops.append(["extend", draw(st.integers(0, 3))])
         elif k == "add":
             ops.append(["add", draw(st.integers(0, 3)), draw(st.sampled_from(addpool))])
         else:
             ops.append(["query", draw(st.integers(0, 3)), draw(st.sampled_from(qpool))])
-    # always finish with queries on parent and child
-    q = draw(st.sampled_from(qpool))
+    # always finish with queries on parent and child, preferably on a parent-defined predicate that was extended
+    touched = []
+    for o in ops:
+        if o[0] == "add":
+            st_ = o[2]
+            heads = [st_[1]] if st_[0] in ("fact", "rule", "rule_or") else ([st_[2]] if st_[0] == "pfact" else [a for _, a in st_[1]])
+            for h in heads:
+                if h[0] in arity:
+                    touched.append(h)
+    if touched and draw(st.integers(0, 3)) != 0:
+        h = draw(st.sampled_from(touched))
+        if draw(st.booleans()):
+            q = [h[0], [["v", VARS_[i]] for i in range(len(h[1]))]]
+        else:
+            q = [h[0], [t if t[0] != "v" else ["a", "a"] for t in h[1]]]
+    else:
+        q = draw(st.sampled_from(qpool))
     ops.append(["query", 0, q])
     ops.append(["query", 1, q])
+    ops.append(["query", len(ops), q])
     return {"base": base, "ops": ops}
+
+
+VARS_ = ["X", "Y", "Z"]
 
 
 def _all_prog(case):
